@@ -458,3 +458,107 @@ def c10_4(run):
         if need not in reached:
             raise Inconclusive(f'vacuity: {need} not reached')
     run.require_reached(*run.cur.reach)
+
+
+# ---------------------------------------------------------------------------------------------------------------------
+# the soft reader's height bookkeeping (sequencer/block_stream.rs)
+def _heights(ex, tag, req, obs, stop):
+    f = {}
+    f['rollup_expects'] = z3.BitVec(f'rollup_expects{tag}', 64)
+    f['greatest_requested_height'] = some(z3.BitVec(f'greatest_requested{tag}', 64)) if req else none()
+    f['latest_observed_sequencer_height'] = some(z3.BitVec(f'latest_observed{tag}', 64)) if obs else none()
+    f['stop_height'] = some(z3.BitVec(f'stop_height{tag}', 64)) if stop else none()
+    f['max_ahead'] = z3.BitVec(f'max_ahead{tag}', 64)
+    raw = {k: (v.fields.get(('Some', 0)) if isinstance(v, Obj) else v) for k, v in f.items()}       # the Option objects are mutated in place by Option::replace
+    return B.struct(ex, 'Heights', **f), raw
+
+
+def _optv(ex, p, o):
+    o = ex.deref_val(p, o)
+    return (o.discr, ex.deref_val(p, o.fields[('Some', 0)]) if o.discr == 'Some' else None)
+
+
+@obligation('C10', 'C10-6 the soft reader\'s height bookkeeping (block_stream::Heights): the next height requested is the rollup\'s expected height when nothing was requested yet, else exactly one above the greatest height requested so far (never a height already requested, never a gap), only if it exists on the sequencer, is within the look-ahead window and not past the stop height; the three recorded heights only ever grow')
+def c10_6(run):
+    ex = engine()
+    nf = ex.find(r'block_stream::<impl at [^>]*>::next_height_to_fetch$|^(sequencer::block_stream::)?Heights::next_height_to_fetch$')
+    sg = ex.find(r'block_stream::<impl at [^>]*>::set_greatest_if_greater$|^(sequencer::block_stream::)?Heights::set_greatest_if_greater$')
+    so = ex.find(r'block_stream::<impl at [^>]*>::set_latest_observed_sequencer_height_if_greater$|^(sequencer::block_stream::)?Heights::set_latest_observed_sequencer_height_if_greater$')
+    sr = ex.find(r'block_stream::<impl at [^>]*>::set_rollup_expects_if_greater$|^(sequencer::block_stream::)?Heights::set_rollup_expects_if_greater$')
+    run.bound(inputs='all u64 values of every field, every Some / None combination; stop height non-zero (NonZeroU64)', unroll='loop-free')
+    sat = lambda a, b: z3.If(z3.ULT(a + b, a), z3.BitVecVal(2**64 - 1, 64), a + b)
+    n = 0
+    for req in (False, True):
+        for obs in (False, True):
+            for stop in (False, True):
+                hs, f = _heights(ex, '', req, obs, stop)
+                st = ex.start(nf, [B.cell(hs)])
+                if stop:
+                    st.pc.append(f['stop_height'] != 0)
+                for i, p in enumerate(run.explore(ex, st)):
+                    lab = f'[requested={req}, observed={obs}, stop={stop}, path {i}]'
+                    if p.kind != 'return':
+                        run.prove(f'next_height_to_fetch no panic {lab}', p.pc, z3.BoolVal(False), detail=p.info); continue
+                    n += 1
+                    d, h = _optv(ex, p, p.result)
+                    re_ = f['rollup_expects']
+                    cand = sat(f['greatest_requested_height'], z3.BitVecVal(1, 64)) if req else re_
+                    conds = [z3.ULT(cand, sat(re_, f['max_ahead']))]
+                    conds.append(z3.ULE(cand, f['latest_observed_sequencer_height']) if obs else z3.BoolVal(False))
+                    if stop:
+                        conds.append(z3.ULE(cand, f['stop_height']))
+                    run.sample({'requested': req, 'observed': obs, 'stop': stop, 'path': i, 'result': d})
+                    if d == 'Some':
+                        run.prove(f'Some(h) => h is the expected height / greatest requested + 1, exists on the sequencer, within the window, not past the stop height {lab}', p.pc, z3.And(h == cand, *conds))
+                    else:
+                        run.prove(f'None => one of the conditions fails {lab}', p.pc, z3.Not(z3.And(*conds)))
+    # the setters are monotone
+    for name, fn, fld, is_opt in (('set_greatest_if_greater', sg, 'greatest_requested_height', True), ('set_latest_observed_sequencer_height_if_greater', so, 'latest_observed_sequencer_height', True),
+                                  ('set_rollup_expects_if_greater', sr, 'rollup_expects', False)):
+        for present in ((False, True) if is_opt else (True,)):
+            hs, f = _heights(ex, '', present if fld == 'greatest_requested_height' else True, present if fld == 'latest_observed_sequencer_height' else True, True)
+            new = z3.BitVec('new_height', 64)
+            st = ex.start(fn, [B.cell(hs), new])
+            for i, p in enumerate(run.explore(ex, st)):
+                lab = f'[{name}, previously set={present}, path {i}]'
+                if p.kind != 'return':
+                    run.prove(f'no panic {lab}', p.pc, z3.BoolVal(False), detail=p.info); continue
+                n += 1
+                after = ex.read(p, p.roots['args'][0].loc)
+                v = B.fld(ex, p, after, fld, None)
+                if is_opt:
+                    d, v = _optv(ex, p, v)
+                    old = f[fld] if present else None
+                    want = z3.If(z3.UGT(new, old), new, old) if present else new
+                    grew = z3.UGT(new, old) if present else z3.BoolVal(True)
+                    run.prove(f'recorded height = max(old, new); answer = whether it grew; other fields untouched {lab}', p.pc,
+                              z3.And(z3.BoolVal(d == 'Some'), v == want, p.result == grew, ex.deref_val(p, B.fld(ex, p, after, 'max_ahead', None)) == f['max_ahead']) if d == 'Some' else z3.BoolVal(False))
+                else:
+                    v = ex.deref_val(p, v); old = f[fld]
+                    run.prove(f'recorded height = max(old, new); answer = whether it grew {lab}', p.pc, z3.And(v == z3.If(z3.UGT(new, old), new, old), p.result == z3.UGT(new, old)))
+    # two-step: after requesting h and recording it, the next request is h + 1 or nothing
+    hs, f = _heights(ex, '', True, True, True)
+    st = ex.start(nf, [B.cell(hs)])
+    st.pc.append(f['stop_height'] != 0)
+    for i, p in enumerate(run.explore(ex, st)):
+        if p.kind != 'return':
+            continue
+        d, h = _optv(ex, p, p.result)
+        if d != 'Some':
+            continue
+        hs2, f2 = _heights(ex, '', True, True, True)
+        st2 = ex.start(sg, [B.cell(hs2), h]); st2.pc += list(p.pc)
+        for j, q in enumerate(run.explore(ex, st2)):
+            if q.kind != 'return':
+                run.prove(f'no panic [two-step {i}.{j}]', q.pc, z3.BoolVal(False)); continue
+            after = ex.read(q, q.roots['args'][0].loc)
+            st3 = ex.start(nf, [B.cell(after)]); st3.pc += list(q.pc)
+            for k_, r in enumerate(run.explore(ex, st3)):
+                if r.kind != 'return':
+                    run.prove(f'no panic [two-step {i}.{j}.{k_}]', r.pc, z3.BoolVal(False)); continue
+                n += 1
+                d3, h3 = _optv(ex, r, r.result)
+                run.prove(f'request h, record it, ask again => h + 1 or nothing (no repeat, no gap) [two-step {i}.{j}.{k_}]', r.pc, z3.BoolVal(True) if d3 != 'Some' else z3.And(h3 == h + 1, z3.UGT(h3, h)))
+    if n < 20:
+        raise Inconclusive(f'vacuity: {n} paths')
+    run.require_reached(*run.cur.reach)
